@@ -46,3 +46,16 @@ prop("C16",
                 "are taken from the stream contract (C05).",
      not_decided=["no other exception type escapes parsing (C03 components)", "conforming documents record no errors (C01)"],
      explanation="227+ error sites enumerated from the AST each run; parseError proved against its contract.")
+
+
+prop("C17",
+     level="proof",
+     level_text="Proof of the whitespace filter's loop body for an arbitrary token and an arbitrary nesting counter: the token is "
+                "emitted exactly once; non-text tokens and all keys but `data` are untouched; outside preserve elements "
+                "SpaceCharacters -> ' ' and Characters -> re.sub('[\\t\\n\\f \\r]+',' ',.) (SPACES_REGEX proved language-equal to "
+                "the five HTML space characters, so non-ASCII spaces are kept); inside they are untouched; the counter tracks "
+                "the depth below the outermost pre/textarea/raw-text element; and a lemma that a second pass changes nothing.",
+     level_note="Trusted: pyvc, z3; the library contract of re.sub for a one-class-plus pattern (an opaque function with the facts "
+                "listed in pyvc/relib.py). Step contracts give the whole-stream statement by induction (not mechanised). "
+                "Known finding: a whitespace run spanning two text tokens is not merged.",
+     explanation="per-token step contract + idempotence lemma")
